@@ -33,6 +33,12 @@ func (pats *IgnorePatterns) UnmarshalYAML(n *yaml.Node) error {
 	}
 	rs := make([]*regexp.Regexp, 0, len(n.Content))
 	for _, p := range n.Content {
+		for p.Kind == yaml.AliasNode && p.Alias != nil {
+			p = p.Alias // An element can be an alias of an anchored pattern. Its value is the name of the anchor
+		}
+		if p.Kind != yaml.ScalarNode {
+			return fmt.Errorf("yaml: each element of \"ignore\" must be a string of regular expression but %s node was found at line:%d,col:%d", nodeKindName(p.Kind), p.Line, p.Column)
+		}
 		r, err := regexp.Compile(p.Value)
 		if err != nil {
 			return fmt.Errorf("invalid regular expression %q in \"ignore\" at line%d,col:%d: %w", p.Value, n.Line, n.Column, err)
